@@ -4,6 +4,7 @@ go 1.24.3
 
 require (
 	github.com/RoaringBitmap/roaring v1.9.4
+	github.com/blevesearch/bleve/v2 v2.5.1
 	github.com/google/uuid v1.6.0
 	github.com/rs/zerolog v1.34.0
 	github.com/semafind/semadb v0.0.0
@@ -12,7 +13,6 @@ require (
 
 require (
 	github.com/bits-and-blooms/bitset v1.22.0 // indirect
-	github.com/blevesearch/bleve/v2 v2.5.1 // indirect
 	github.com/blevesearch/bleve_index_api v1.2.8 // indirect
 	github.com/blevesearch/geo v0.2.3 // indirect
 	github.com/blevesearch/go-porterstemmer v1.0.3 // indirect
@@ -29,4 +29,4 @@ require (
 	golang.org/x/sys v0.33.0 // indirect
 )
 
-replace github.com/semafind/semadb => /tmp/ag/c01/repo
+replace github.com/semafind/semadb => /repo
